@@ -470,6 +470,9 @@ Section Open.
           try (unfold ehdr_flds; rewrite E64; reflexivity); try lia; unfold entsz; lia. }
     destruct Hfields as [Hshnum [Hphnum [Hshoff [Hpho Hent]]]].
     rewrite Hshnum, Hphnum, Hshoff, Hpho, Hent. cbn [N.eqb negb andb].
+    assert (Hpsz : (entsz <? (if is64 then 56 else 32)) = false).
+    { unfold entsz, phdr_size, is64. destruct (el_64 l); apply N.ltb_ge; lia. }
+    rewrite Hpsz, andb_false_r. cbv iota.
     replace (N.to_nat nseg) with (length segs) by (unfold nseg; lia).
     pose proof (phdr_loop_suffix segs [] eq_refl) as Hloop. cbn [length datalen N.of_nat] in Hloop.
     rewrite N.mul_0_l, !N.add_0_r in Hloop. rewrite Hloop.
